@@ -96,7 +96,7 @@ pub fn c17(args: Args) {
                 let cyclic = !cyc_prev.is_empty() || !cyc_now.is_empty();
                 let s2 = if sig.contains("has-extra-group") && matches!(op, Some(Op::DynFilter { .. })) {
                     "c17/memberof-keeps-dyngroup-after-filter-change".to_string()
-                } else if sig.contains("has-extra-group") && cyclic {
+                } else if sig.starts_with("c17/memberof-has-extra-group") && cyclic {
                     "c17/stale-memberof-after-removal-in-cyclic-graph".to_string()
                 } else if sig.contains("misses-group") && matches!(op, Some(Op::Revive { .. })) {
                     "c17/memberof-not-restored-for-members-of-revived-group".to_string()
@@ -118,6 +118,15 @@ pub fn c17(args: Args) {
     let hooks = Hooks { after_op: &after, at_end: &end, nontrivial: &nt, dyn_check: false, quiesce: true, verify_sig: Some("c17/server-verify") };
     let n = args.tier.pick(160, 5000);
     run_histories(&mut run, &args, 17, n, &prof, &hooks);
+    // dense: few leaves and few groups, mostly membership edits on one replica, so that direct links
+    // are added and removed while another path to the same group exists (memberof unchanged,
+    // directmemberof must change) and links are removed one path at a time
+    let prof_dense = Profile {
+        pop: Pop { persons: 3, services: 0, groups: 4, dyngroups: 0, oauths: 0, certs: 0, names: 8 },
+        w: Weights { create: 25, add_member: 45, rem_member: 28, delete: 3, revive: 2, set_desc: 2, abort: 1, ..Default::default() },
+        replicas_min: 1, replicas_max: 1, ops_min: 25, ops_max: 60, ..prof
+    };
+    run_histories(&mut run, &args, 1017, args.tier.pick(120, 4000), &prof_dense, &hooks);
     require_ops(&mut run, &["create", "add_member", "rem_member", "delete", "revive", "repl"]);
     run.finish();
 }
